@@ -209,7 +209,10 @@ func (w *cfgWriter) block(name string, bl m.BlockM, level int, selfOK bool) {
 		keyAttrs = d.Attrs
 		dep = &d.Body
 	}
-	if w.viol() && len(labels) > 0 {
+	if w.o.Typed {
+		// label violations would change which dependent body is in force, making
+		// the values written for the intended body ill-typed
+	} else if w.viol() && len(labels) > 0 {
 		labels = labels[:len(labels)-1]
 	} else if w.viol() {
 		labels = append(labels, "surplus")
